@@ -247,6 +247,19 @@ Proof. intros. unfold run_ok. cbn. rewrite upd_same. auto. Qed.
 Lemma run_ok_cell m t c v : run_ok m t -> run_ok (set_cell m c v) t.
 Proof. auto. Qed.
 
+Lemma run_slots_empty m t (rest : stack rwc) :
+  slots_empty m t -> run_slots rwc m t rest = sleep rwc m t rest.
+Proof.
+  intros (A & B & C & D). unfold run_slots, sleep. rewrite A, B, C, D. destruct (pend m t); reflexivity.
+Qed.
+
+Lemma not_listed_woken sd : ~ listed (RWait sd Woken). Proof. intros [sd' [H|H]]; discriminate. Qed.
+Lemma not_listed_resumed sd : ~ listed (RWait sd Resumed). Proof. intros [sd' [H|H]]; discriminate. Qed.
+Lemma not_listed_own sd : ~ listed (ROwn sd). Proof. intros [sd' [H|H]]; discriminate. Qed.
+Lemma not_listed_idle : ~ listed RIdle. Proof. intros [sd' [H|H]]; discriminate. Qed.
+Lemma not_listed_pre sd : ~ listed (RWait sd Pre). Proof. intros [sd' [H|H]]; discriminate. Qed.
+#[export] Hint Resolve not_listed_woken not_listed_resumed not_listed_own not_listed_idle not_listed_pre : core.
+
 Section Main.
 Variable s : st. Variable g : ghost. Variable t : nat.
 Hypothesis G : Z.of_nat (nthr s) < 2 ^ 21.
@@ -262,5 +275,102 @@ Proof.
   - (* start *) stp Hk. local g t RIdle Hk Hr.
     apply (start_shape _ t p 1%nat HNone). apply run_ok_fstate; auto.
   - (* lsnap *) destruct (busy sd (word (mem s) 0)) eqn:B; stp Hk; local g t RIdle Hk Hr; constructor; auto.
+  - (* lcasw *) destruct (word (mem s) 0 =? e) eqn:B.
+    + admit.
+    + stp Hk. local g t RIdle Hk Hr. constructor; auto.
+  - (* lcasa *) destruct (word (mem s) 0 =? e) eqn:B.
+    + admit.
+    + stp Hk. local g t RIdle Hk Hr. constructor; auto.
+  - (* tsnap *) destruct (busy sd (word (mem s) 0)) eqn:B; stp Hk; local g t RIdle Hk Hr.
+    + apply (start_shape _ t p (S k) HNone); auto.
+    + constructor; auto.
+  - (* tcasa *) destruct (word (mem s) 0 =? e) eqn:B.
+    + admit.
+    + stp Hk. local g t RIdle Hk Hr. constructor; auto.
+  - (* gotr *) stp Hk. local g t (ROwn SR) Hk Hr.
+    apply (start_shape _ t p (S k) (HRead (cell (mem s) 0))); auto.
+  - (* gotw *) stp Hk. local g t (ROwn SW) Hk Hr.
+    apply (start_shape _ t p (S k) HWrite); auto.
+  - (* ucheck *) stp Hk. local g t (ROwn sd) Hk Hr. constructor; auto.
+  - (* usnap *) destruct (release sd (word (mem s) 0)) as [n h] eqn:B. stp Hk. rewrite B. cbn [app].
+    local g t (ROwn sd) Hk Hr. econstructor; eauto.
+  - (* ucas *) destruct (word (mem s) 0 =? e) eqn:B.
+    + admit.
+    + stp Hk. local g t (ROwn sd) Hk Hr. constructor; auto.
+  - (* khead *) stp Hk. local g t RIdle Hk Hr.
+    + constructor; auto.
+    + unfold pop_ok. cbn [mk stk mem]. rewrite upd_same. reflexivity.
+  - (* knext *) pose proof (i_pop _ _ I t) as Po. unfold pop_ok in Po. rewrite <- Hk in Po.
+    destruct (nnext (mem s) h) as [|nx'] eqn:B.
+    + assert (C : 0 <? cnt = true) by (apply Z.ltb_lt; unfold pq in *; lia).
+      stp Hk. rewrite B. cbn [app]. rewrite C. local g t RIdle Hk Hr. constructor; auto.
+    + stp Hk. rewrite B. local g t RIdle Hk Hr.
+      * constructor; auto.
+      * unfold pop_ok. cbn [mk stk mem]. rewrite upd_same. auto.
+  - (* kspin1 *) stp Hk. local g t RIdle Hk Hr.
+    destruct H as (-> & _). constructor; auto. repeat split; auto. apply H.
+  - (* kspin2 *) assert (C : wc <? cnt = true) by (apply Z.ltb_lt; unfold pq in *; lia).
+    stp Hk. cbn [kloop]. rewrite C. local g t RIdle Hk Hr. constructor; auto.
+  - (* ksethead *) admit.
+  - (* kdata *) pose proof (i_pop _ _ I t) as Po. unfold pop_ok in Po. rewrite <- Hk in Po.
+    stp Hk. local g t RIdle Hk Hr.
+    + constructor; auto.
+    + unfold pop_ok. cbn [mk stk mem]. rewrite upd_same.
+      destruct Po as (A & B & C & f & (sd' & D1 & D2 & D3) & E). split; auto. split; auto.
+      exists f. split; auto. exists sd'. repeat split; auto. cbn.
+      assert (f <> t) by (intros ->; congruence). rewrite upd_other; auto.
+  - (* kcopy *) admit.
+  - (* kout *) admit.
+  - (* kstate *) admit.
+  - (* kready *) admit.
+  - (* wsaving *) stp Hk. local g t (RWait sd Pre) Hk Hr.
+    destruct H as (A & B & C & D). constructor; cbn; rewrite ?upd_same; auto.
+  - (* wdata *) admit.
+  - (* wnext *) admit.
+  - (* wxchg *) admit.
+  - (* wlink *) admit.
+  - (* pyread *) pose proof H as (A & B & C). stp Hk. rewrite B. local g t (RWait sd w) Hk Hr. constructor; auto.
+  - (* pynext *) stp Hk. local g t (RWait sd w) Hk Hr. constructor; auto.
+  - (* pswread *) pose proof H as (A & B & C).
+    assert (E : (fstate (mem s) t =? ST_RUNNING) = false) by (rewrite B; reflexivity).
+    stp Hk. local g t (RWait sd w) Hk Hr. constructor; auto.
+  - (* pswdone *) stp Hk. local g t (RWait sd w) Hk Hr. constructor; auto.
+  - (* pmread *) pose proof H as (A & B & C).
+    assert (E : (fstate (mem s) t =? ST_SAVING) = true) by (rewrite B; reflexivity).
+    stp Hk. local g t (RWait sd w) Hk Hr. constructor; auto.
+  - (* pmflip *) destruct H as (A & B & C & D & E & F).
+    assert (STP : forall m1 k1, match pend (mem s) t with
+              | S k' => (set_pend (set_fstate (mem s) t ST_WAITING) t k', Resume :: YLoop :: [FC (LWoken sd p k)])
+              | O => (set_blocked (set_fstate (mem s) t ST_WAITING) t true, Asleep :: YLoop :: [FC (LWoken sd p k)])
+              end = (m1, k1) -> fst (step s t) = mk s t m1 k1).
+    { intros m1 k1 E1. unfold step. rewrite <- Hk. cbn [kstep].
+      rewrite run_slots_empty by (apply (i_slots _ _ I)). unfold sleep. cbn [pend set_fstate].
+      destruct (pend (mem s) t); inversion E1; subst; reflexivity. }
+    destruct A as [->|[->|->]]; rewrite D in STP.
+    + rewrite (STP _ _ eq_refl). local g t (RWait sd InL) Hk Hr.
+      constructor; cbn; rewrite ?upd_same; auto; discriminate.
+    + rewrite (STP _ _ eq_refl). local g t (RWait sd Popped) Hk Hr.
+      constructor; cbn; rewrite ?upd_same; auto; discriminate.
+    + rewrite (STP _ _ eq_refl). exists (gset_role g t (RWait sd Resumed)). apply inv_local; auto; local_prems Hk Hr.
+      * constructor; cbn; rewrite ?upd_same; auto.
+      * right. rewrite <- Hr. auto.
+  - (* asleep *) assert (B : blocked (mem s) t = false).
+    { unfold status_of in R. rewrite <- Hk in R. cbn in R. destruct (t <? nthr s)%nat; [|discriminate].
+      destruct (blocked (mem s) t); [discriminate|reflexivity]. }
+    assert (w = Woken) as -> by (destruct w; congruence).
+    stp Hk. exists (gset_role g t (RWait sd Resumed)). apply inv_local; auto; local_prems Hk Hr.
+    + constructor; auto.
+    + right. rewrite <- Hr. auto.
+    + intros _ sd'. rewrite <- Hr. discriminate.
+  - (* resume *) stp Hk. local g t (RWait sd Resumed) Hk Hr.
+    constructor. apply run_ok_fstate; auto.
+  - (* ryread *) pose proof H as (A & B). stp Hk. rewrite A. local g t (RWait sd Resumed) Hk Hr. constructor; auto.
+  - (* rynext *) stp Hk. exists (gset_role g t (ROwn sd)). apply inv_local; auto; local_prems Hk Hr.
+    + destruct sd; constructor; auto.
+    + right. rewrite <- Hr. auto.
+    + destruct sd; cbn; tauto.
+    + destruct sd; cbn; tauto.
+    + apply pop_ok_nonpopper. cbn [mk stk]. rewrite upd_same. destruct sd; cbn; tauto.
+    + destruct sd; cbn; tauto.
 Abort.
 End Main.
